@@ -60,10 +60,16 @@ VERSIONS = {
 }
 
 
+# usmStatsUnsupportedSecLevels .. usmStatsDecryptionErrors: ordinary readable
+# counters of every v3 agent (the very OIDs that Report PDUs carry)
+USM_COUNTERS = [(1, 3, 6, 1, 6, 3, 15, 1, 1, k, 0) for k in range(1, 7)]
+
+
 def db_for(version):
     db = dict(DB)
     if version.startswith("v3"):
-        db[USM_OID] = ("c32", 3)
+        for k, o in enumerate(USM_COUNTERS):
+            db[o] = ("c32", 3 + k)
     return db
 
 
@@ -305,6 +311,23 @@ def cases(version, tier):
                 for n in range(0, L + 1):
                     for m in (0, 1, 2, 3):
                         out.append(("bulkget", list(oids[:n]), list(oids[n:]), m))
+    # long lists (answers with more bindings than any fixed small number)
+    out.append(("multiget", list(menu) * 5))
+    out.append(("multigetnext", list(MENU[:6]) * 7))
+    if version != "v1":
+        out.append(("bulkget", list(MENU[:3]), list(MENU[:2]), 40))
+    if version.startswith("v3"):
+        # every usmStats counter through every read operation
+        group = USM_COUNTERS[0][:-2]
+        for o in USM_COUNTERS[1:]:
+            out.append(("get", o))
+            out.append(("getnext", o[:-1]))
+            out.append(("multiget", [MENU[0], o]))
+            out.append(("multigetnext", [o[:-1], MENU[0]]))
+            out.append(("bulkget", [o[:-1]], [], 0))
+        out.append(("multiget", list(USM_COUNTERS)))
+        out.append(("bulkget", [], [group], 3))
+        out.append(("bulkget", [], [group, MENU[0]], 3))
     for o in SET_OIDS:
         for v in SET_VALUES:
             out.append(("set", o, v))
